@@ -2,6 +2,7 @@
 import itertools
 
 ID = 'C15'
+LEAN_MODULES = ['C15', 'C15b']
 RULE = ('one case = the real selector actor (start_node_selector + DCAwareSelector) for one local node, a sequence of membership updates (layouts up to 4 DCs x 4 nodes, '
         'the local node at every position, DCs appearing/disappearing/shrinking) and selections at all eight consistency levels; the data centres picked by the random '
         'choose_multiple are recorded by hook H3 and handed to the model; results compared with the Lean model after every call; python oracle = the property itself '
